@@ -56,6 +56,18 @@ namespace
             if (c + 1 < g->cycles) sched.schedule(MIN_TD);
         }
     };
+    long live_zero(long c) { return 1L << (40 + c % 16); }   // the live zero input ticks with a new value in every cycle
+    struct ZeroWriter
+    {
+        static constexpr auto name = "c11_zero_writer";
+        static constexpr bool schedule_on_start = true;
+        static void eval(NodeScheduler sched, DateTime now, Out<TS<Int>> out)
+        {
+            const long c = rel(now);
+            out.set(Int{live_zero(c)});
+            if (c + 1 < g->cycles + 2) sched.schedule(MIN_TD);
+        }
+    };
     struct EveryProbe
     {
         static constexpr auto name = "c11_every_probe";
@@ -82,7 +94,7 @@ namespace
     {
         Outcome out;
         Run run; run.script = script; run.cycles = static_cast<int>(script.size());
-        const bool dict = cfg[0] == 'd', zero = cfg[2] == 'z';
+        const bool dict = cfg[0] == 'd', livez = cfg[2] == 'y', zero = cfg[2] == 'z' || livez;
         std::string exc;
         g = &run;
         try
@@ -90,6 +102,13 @@ namespace
             Wiring w;
             Port<TS<Int>> r;
             auto wire_reduce = [&](auto coll) {
+                if (livez)
+                {
+                    auto z = wire<ZeroWriter>(w);
+                    if (cfg[1] == 'o') return wire<stdlib::reduce_>(w, fn<stdlib::add_>(), coll, z).template as<TS<Int>>();
+                    if (cfg[1] == 'n') return wire<stdlib::reduce_>(w, fn<SumNode>(), coll, z).template as<TS<Int>>();
+                    return wire<stdlib::reduce_>(w, fn<SumGraph>(), coll, z).template as<TS<Int>>();
+                }
                 if (cfg[1] == 'o') return zero ? wire<stdlib::reduce_>(w, fn<stdlib::add_>(), coll, Int{ZERO}).template as<TS<Int>>() : wire<stdlib::reduce_>(w, fn<stdlib::add_>(), coll).template as<TS<Int>>();
                 if (cfg[1] == 'n') return zero ? wire<stdlib::reduce_>(w, fn<SumNode>(), coll, Int{ZERO}).template as<TS<Int>>() : wire<stdlib::reduce_>(w, fn<SumNode>(), coll).template as<TS<Int>>();
                 return zero ? wire<stdlib::reduce_>(w, fn<SumGraph>(), coll, Int{ZERO}).template as<TS<Int>>() : wire<stdlib::reduce_>(w, fn<SumGraph>(), coll).template as<TS<Int>>();
@@ -134,8 +153,9 @@ namespace
             max_live = std::max(max_live, live.size());
             bool want_valid; long want = 0;
             long sum = 0; for (auto &[k, v] : live) sum += v;
-            if (live.empty()) { want_valid = zero; want = ZERO; }
-            else if (live.size() == 1) { want_valid = true; want = zero ? sum + ZERO : sum; }
+            const long zv = livez ? live_zero(c) : ZERO;
+            if (live.empty()) { want_valid = zero; want = zv; }
+            else if (live.size() == 1) { want_valid = true; want = zero ? sum + zv : sum; }
             else { want_valid = true; want = sum; }
             const Sample &s = run.samples[static_cast<std::size_t>(c)];
             sig << (s.valid ? std::to_string(s.value) : std::string{"-"}) << ",";
@@ -148,7 +168,7 @@ namespace
             {
                 std::ostringstream o;
                 o << "cycle " << c << ": result " << s.value << " (bits 0x" << std::hex << s.value << ") but the fold over the " << std::dec << live.size() << " live elements is " << want << " (bits 0x" << std::hex << want
-                  << ")" << (((s.value ^ want) & ZERO) ? " — the zero was folded in or left out wrongly" : "");
+                  << ")" << (((s.value ^ want) & (livez ? ~((1L << 40) - 1) : ZERO)) ? " — the zero was folded in, left out or stale" : "");
                 out.violation = o.str();
             }
         }
@@ -191,6 +211,9 @@ void verif_enumerate(verif::Ctx &ctx)
         {{"do-", "doz"}, {"s1a", "s2a", "s3a", "e1", "e2", "e3", "s2b", "c"}, 3, 2},   // long lists: cancellations inside one cycle
         {{"lo-", "loz", "ln-", "lgz"}, {"s0a", "s1a", "s2a", "s3a", "s0b", "s2b"}, 2, 3},  // fixed TSL<TS<Int>,4>: unset slots are not live
     };
+    // a LIVE zero (a time-series that ticks with a new value every cycle): empty and singleton results must follow it, also after the tree shrank
+    spaces.push_back({{"doy", "dny"}, th ? std::vector<std::string>{"s1a", "s2a", "s3a", "s4a", "e1", "e2", "e3", "e4", "B", "c"} : std::vector<std::string>{"s1a", "s2a", "s3a", "e1", "e2", "e3", "c"}, 2, 3});
+    spaces.push_back({{"doy", "dgy"}, {"s1a", "s2a", "s3a", "e1", "e2", "e3", "s1b", "c"}, 1, 5});
     // more than 64 live elements (70 bulk keys): several operands at different depths of the tree change in one cycle
     spaces.push_back({{"do-", "dnz"}, {"H", "u21", "u55", "u90", "e56"}, 2, 3});
     if (th)
